@@ -59,6 +59,7 @@ Inductive bell_exit :=
   | BX_nodec                              (* loop: td < 0 accepted, acceleration only *)
   | BX_fail_noacc | BX_fail_nodec         (* negative discriminant in a single-phase case *)
   | BX_fail_loop                          (* loop condition ac > epsilon became false *)
+  | BX_fail_zero                          (* a limit is zero (fix C14-1) *)
   | BX_out_of_fuel.
 
 Section Model.
@@ -172,6 +173,8 @@ Section Model.
     let jm := if jm <? #0 then - jm else jm in
     let am := if am <? #0 then - am else am in
     let vm := if vm <? #0 then - vm else vm in
+    if orb (jm ==? #0) (orb (am ==? #0) (vm ==? #0))        (* zero limits admit no motion: goto fail (fix C14-1) *)
+    then (b_set_t #0 c, #0, BX_fail_zero, 0%nat) else
     let v0 := sat v0 (- vm) vm in
     let v1 := sat v1 (- vm) vm in
     let c := b_set_p0 p0 c in
@@ -331,7 +334,7 @@ Section Model.
     match k with
     | BX_cruise a d => (if a then 1 else 0) + (if d then 2 else 0)
     | BX_both => 4 | BX_noacc => 5 | BX_nodec => 6 | BX_fail_noacc => 7 | BX_fail_nodec => 8
-    | BX_fail_loop => 9 | BX_out_of_fuel => 10
+    | BX_fail_loop => 9 | BX_out_of_fuel => 10 | BX_fail_zero => 11
     end%Z.
   Definition bell_fuel : nat := (40 * 30)%nat.
   (* one line of the correspondence: return value, the 14 fields; then exit code and pass count (model only) *)
